@@ -295,13 +295,16 @@ Ltac ret_step :=
   | apply Ret_many0; [ | solve [fwd_solve Hs0] ]
   | apply Ret_info | apply Ret_expect | apply Ret_ref | apply Ret_confusable ].
 
-Ltac ok_destruct :=
+Ltac ok_destruct := repeat match goal with x : _ * _ |- _ => destruct x end.
+Ltac ok_opts :=
   repeat match goal with
-         | x : _ * _ |- _ => destruct x
-         | x : option _ |- _ => destruct x
+         | |- context [match ?o with Some _ => _ | None => _ end] => is_var o; destruct o
          end.
-Ltac ok_side := intros; unfold_ok; ok_destruct; cbn in *; intuition.
-Ltac ret := repeat first [ ret_step | eapply Ret_map; [ | solve [ok_side] ] ].
+Ltac ok_unf := unfold TypedeclOk, ProcdeclOk, GdeclOk, VardeclOk, ParamdeclOk, OptP, RefP in *.
+Ltac ok_side :=
+  solve [ intros; unfold_ok; ok_unf; ok_destruct; cbn in *; ok_unf; ok_opts; ok_destruct; cbn in *; ok_unf;
+          intuition ].
+Ltac ret := repeat first [ ret_step | eapply Ret_map; [ | ok_side ] ].
 
 (* ------------------------------------------------------------------------------------------ *)
 Section NonTerminals.
@@ -400,9 +403,7 @@ Qed.
 Lemma Ret_call f : RetT ok_stmt (p_call toks f).
 Proof.
   pose proof (Ret_list _ f _ (Ret_argument f) (Fwd_argument toks sync_none Hs0 f)).
-  unfold p_call. eapply Ret_map; [ret|].
-  - eapply Ret_map; [ret|]. intros; constructor.
-  - ok_side.
+  unfold p_call. eapply Ret_map; [ret | ok_side].
 Qed.
 
 Lemma Ret_assign f : RetT ok_stmt (p_assign toks f).
@@ -445,9 +446,7 @@ Lemma Ret_procdecl f : RetT ok_procdecl (p_procdecl toks f).
 Proof.
   pose proof (Ret_list _ f _ (Ret_paramdecl f) (Fwd_paramdecl toks sync_none Hs0 f)).
   pose proof (Ret_vardecl f). pose proof (Ret_stmt f).
-  unfold p_procdecl. eapply Ret_map; [ret|].
-  - eapply Ret_map; [ret|]. intros; constructor.
-  - ok_side.
+  unfold p_procdecl. eapply Ret_map; [ret | ok_side].
 Qed.
 
 Lemma Ret_gdecl f : RetT ok_gdecl (p_gdecl toks f).
@@ -460,9 +459,8 @@ Qed.
 
 Lemma Ret_program f : RetT IdentsNonEmpty (p_program toks f).
 Proof.
-  pose proof (Ret_gdecl f). unfold p_program. eapply Ret_map; [ret|].
-  - apply Fwd0_gdecl.
-  - intros [[ds inf] u] [[Hd _] _]. exact Hd.
+  pose proof (Ret_gdecl f). pose proof (Fwd0_gdecl toks f). unfold p_program. eapply Ret_map; [ret|].
+  intros [[ds inf] u] [[Hd _] _]. exact Hd.
 Qed.
 
 End NonTerminals.
